@@ -126,6 +126,12 @@ func newAccount(seed int64, kind string, i int) *Account {
 }
 
 func NewWorld(cfg WorldCfg) *World {
+	// a genesis with more bonded validators than MaxValidators is inconsistent (x/staking never demotes the surplus):
+	// the surplus keys become validators that can be created later by transaction
+	if uint32(cfg.NumVals) > cfg.MaxValidators {
+		cfg.ExtraVals += cfg.NumVals - int(cfg.MaxValidators)
+		cfg.NumVals = int(cfg.MaxValidators)
+	}
 	w := &World{Cfg: cfg, ByAddr: map[string]*Account{}}
 	for i := 0; i < cfg.NumVals+cfg.ExtraVals; i++ {
 		cons := ed25519.GenPrivKeyFromSecret(seedBytes(cfg.Seed, "cons", i))
